@@ -31,6 +31,12 @@ static OUT_VEC_T *verif_unique_ptr_release(OUT_VEC_T **p)   /* p.release(): give
   *p = 0;
   return old;
 }
+static OUT_VEC_T *verif_unique_ptr_take(OUT_VEC_T **q)    /* std::move(q) into a new unique_ptr: q is left null */
+{
+  OUT_VEC_T *p = *q;
+  *q = 0;
+  return p;
+}
 unsigned long verif_ghost_K;
 unsigned verif_ghost_J;
 OUT_SCALAR_T verif_ghost_src;   /* ghost: value of o[K][J] before the call (set by the harness) */
@@ -63,3 +69,17 @@ OUT_VEC_T *verif_old_o_ptr;
   __CPROVER_ensures(verif_ghost_K < (o)->m_size ==> __CPROVER_equal((o)->m_ptr[verif_ghost_K].m_data[verif_ghost_J], verif_ghost_src)) \
   __CPROVER_ensures((self)->m_ptr != 0 ==> !__CPROVER_same_object((self)->m_ptr, (o)->m_ptr)) \
   __CPROVER_assigns((self)->m_size, (self)->m_ptr)
+
+/* trivial constructors: establish the representation invariant from raw storage */
+#define CONTRACT_array_default_ctor(self) \
+  __CPROVER_ensures((self)->m_size == 0 && (self)->m_ptr == 0 && WF(self)) \
+  __CPROVER_assigns((self)->m_size, (self)->m_ptr)
+#define CONTRACT_array_size_ctor(self, n) \
+  __CPROVER_requires((n) <= ARRAY_OWN_MAX && verif_ghost_J < DIMS_OUT) \
+  __CPROVER_ensures((self)->m_size == (n) && WF(self)) \
+  __CPROVER_ensures(verif_ghost_K < (n) ==> (self)->m_ptr[verif_ghost_K].m_data[verif_ghost_J] == (OUT_SCALAR_T)0)   /* value-initialised */ \
+  __CPROVER_assigns((self)->m_size, (self)->m_ptr)
+/* (size, unique_ptr&&): adopts the block (no copy), the argument is left null */
+#define CONTRACT_array_adopt_ctor(self, size, ptr) \
+  __CPROVER_ensures((self)->m_size == (size) && (self)->m_ptr == verif_old_o_ptr && *(ptr) == 0) \
+  __CPROVER_assigns((self)->m_size, (self)->m_ptr, *(ptr))
